@@ -15,6 +15,9 @@ CHECKS = {
  "C04": ("exploration", "ledger auditor: after every op of random ledger histories (forks, ties, reorganisations, held/late blocks, duplicates, invalid blocks, truncation + regrowth) every query of the statement is compared with a tree model, on the live instance and on a reopened twin",
          "Runtime monitor against an executable tree model over thousands of operations; held on what was explored.",
          "Trusted: the tree model (refmodel/tree.go); the ledger does not validate transaction contents, bodies are arbitrary signed transfers.", "DESIGN.md §3 C04"),
+ "C03": ("exploration", "admission oracle + pool-validity auditor: every DoTx / submission result in random histories with conflict families and hostile variants is compared both ways with a statement-level model of chain(tip)+pool; after every op the pool must be explainable as a sequential extension of the model state",
+         "Runtime monitor with an implementation-independent admission model over thousands of operations; held on what was explored (two PlayAndRepost-with-pool defects are listed as known findings).",
+         "Trusted: the statement-level model (refmodel/state.go); signatures / ACL / contract re-execution are other properties.", "DESIGN.md §3 C03"),
 }
 NOT_YET = "check not built yet in this session (work in progress; see DESIGN.md for the planned monitor)"
 ALL = ["C%02d" % i for i in range(1, 21)]
